@@ -293,7 +293,11 @@ class Rule(MethodMeek):
 
                 #  D.4. find winners
                 #
-                for c in [c for c in C.hopeful() if hasQuota(c)]:
+                winners = [c for c in C.hopeful() if hasQuota(c)]
+                if len(winners) > E.seatsLeftToFill():
+                    #  coarse arithmetic can put more candidates over the quota than seats remain: the highest take them
+                    winners = C.byVote(winners, reverse=True)[:E.seatsLeftToFill()]
+                for c in winners:
                     c.elect()
                     iStatus = IS_elected
 
